@@ -176,6 +176,14 @@ func checkOne(c *mc.Ctx, u *protocol.URI, target string) {
 			c.Violate("path-differs-with-suffix:"+suf, fmt.Sprintf("URI.Parse(%q,%q).Path()=%q, reference (decode once, resolve with a stack)=%q", hostH, target+suf, got, want), Case{target + suf})
 		}
 	}
+	// the path setters run the same decode-and-resolve step as the parser
+	for si, set := range []func(){func() { u.SetPath(target) }, func() { u.SetPathBytes([]byte(target)) }} {
+		u.Reset()
+		set()
+		if got := string(u.Path()); got != want {
+			c.Violate("path-setter-differs-from-segment-stack", fmt.Sprintf("URI.%s(%q): Path()=%q, reference (decode once, resolve with a stack)=%q", []string{"SetPath", "SetPathBytes"}[si], target, got, want), Case{target})
+		}
+	}
 	cp := utils.CleanPath(target)
 	if msg := containedOK(cp, false); msg != "" {
 		c.Violate("cleanpath-invariant:"+msg, fmt.Sprintf("CleanPath(%q)=%q %s", target, cp, msg), Case{target})
